@@ -509,6 +509,11 @@ impl<R: Read> BufRead for StreamBufferedReader<R> {
 
 impl<R: Read + Seek> Seek for StreamBufferedReader<R> {
     fn seek(&mut self, pos: SeekFrom) -> io::Result<u64> {
+        // The inner reader is ahead of the logical position by the bytes still buffered
+        let pos = match pos {
+            SeekFrom::Current(offset) => SeekFrom::Current(offset - (self.end - self.pos) as i64),
+            other => other,
+        };
         // For seek operations, we need to invalidate the buffer
         self.pos = 0;
         self.end = 0;
